@@ -243,26 +243,51 @@ func ruleStatsErr(r *Run) {
 	for _, fn := range p.ModuleFuncs() {
 		site := 0
 		eachInstr(fn, func(in ssa.Instruction) {
-			ev, al := statsEvent(in)
-			if ev != "End" || al == nil {
+			ev, _ := statsEvent(in)
+			if ev != "End" {
 				return
+			}
+			// the literal is written at the call or in a constructor helper (endRPC(beginTime, err)): each literal the
+			// argument can be, with the call chain that leads to it, so that the helper's parameters resolve to this
+			// call's arguments
+			arg := in.(ssa.CallInstruction).Common().Args[1]
+			var lits []ctxValue
+			for _, o := range p.originsCtx(arg, nil, originOpts{}) {
+				if _, ok := o.v.(*ssa.Alloc); !ok {
+					lits = nil
+					break
+				}
+				lits = append(lits, o)
 			}
 			site++
 			n++
 			key := fmt.Sprintf("%s/End.Error#%d", shortFunc(fn), site)
-			var stored ssa.Value
-			for _, ref := range *al.Referrers() {
-				fa, ok := ref.(*ssa.FieldAddr)
-				if !ok || fieldOfAddr(fa).Name() != "Error" {
-					continue
-				}
-				for _, r2 := range *fa.Referrers() {
-					if st, ok := r2.(*ssa.Store); ok {
-						stored = st.Val
+			if len(lits) == 0 {
+				r.undecided(key, in.Pos(), "the stats.End event passed to HandleRPC is not a literal written here or in a constructor helper: its Error field cannot be read")
+				return
+			}
+			var storedVals []ctxValue
+			missing := false
+			for _, l := range lits {
+				var stored ssa.Value
+				for _, ref := range *l.v.(*ssa.Alloc).Referrers() {
+					fa, ok := ref.(*ssa.FieldAddr)
+					if !ok || fieldOfAddr(fa).Name() != "Error" {
+						continue
+					}
+					for _, r2 := range *fa.Referrers() {
+						if st, ok := r2.(*ssa.Store); ok {
+							stored = st.Val
+						}
 					}
 				}
+				if stored == nil {
+					missing = true
+					continue
+				}
+				storedVals = append(storedVals, ctxValue{stored, l.ctx})
 			}
-			if stored == nil {
+			if missing || len(storedVals) == 0 {
 				r.bad(key, in.Pos(), "stats.End is emitted without its Error field: a failing RPC is reported as successful")
 				return
 			}
@@ -286,7 +311,13 @@ func ruleStatsErr(r *Run) {
 			}
 			good, fromHandler := true, false
 			what := ""
-			for _, o := range p.origins(stored, originOpts{}) {
+			var errOrigins []ssa.Value
+			for _, sv := range storedVals {
+				for _, o := range p.originsCtx(sv.v, sv.ctx, originOpts{}) {
+					errOrigins = append(errOrigins, o.v)
+				}
+			}
+			for _, o := range errOrigins {
 				c, ok := o.(*ssa.Call)
 				if ok && calledField(c) == hf {
 					fromHandler = true
